@@ -18,8 +18,10 @@ func (c *Combination) Empty() bool {
 
 // Simplify by returning a representation of the combination.
 func (c *Combination) Simplify() any {
-	simple := map[string]any{
-		"from": c.From.Name(),
+	simple := map[string]any{}
+	if c.From != nil {
+		// The combinations of a generic function method belong to no class.
+		simple["from"] = c.From.Name()
 	}
 	if c.Wrap != nil {
 		simple["whopper"] = true
